@@ -27,6 +27,32 @@ fn bound_values(segs: &[Seg]) -> Vec<u32> {
     v
 }
 
+fn hash_of(r: &Range<u32>) -> u64 {
+    let mut h = DefaultHasher::new();
+    r.hash(&mut h);
+    h.finish()
+}
+
+/// the same set built through other public operations
+fn alt_builds(r: &Range<u32>, segs: &[Seg]) -> Vec<(&'static str, Range<u32>)> {
+    let mut pieces = Range::empty();
+    for (s, e) in segs.iter().rev() {
+        pieces = pieces.union(&Range::from_range_bounds((s.clone(), e.clone())));
+    }
+    let mut cut = Range::full();
+    for (s, e) in segs {
+        cut = cut.intersection(&Range::from_range_bounds((s.clone(), e.clone())).complement());
+    }
+    vec![
+        ("complement of complement", r.complement().complement()),
+        ("union with empty then intersection with full", r.union(&Range::empty()).intersection(&Range::full())),
+        ("union of its segments", pieces),
+        ("complement of the intersection of the segments' complements", cut.complement()),
+        ("intersection with itself", r.intersection(r)),
+        ("union with itself", r.union(r)),
+    ]
+}
+
 /// `rbin|A|B` : all binary operations (C10, C16)
 pub fn eval_rbin(req: &str, a_s: &str, b_s: &str) -> Case {
     let (sa, sb) = (parse_segs(a_s), parse_segs(b_s));
@@ -106,16 +132,19 @@ pub fn eval_rbin(req: &str, a_s: &str, b_s: &str) -> Case {
         set("cmp is not antisymmetric".into());
     }
     if eq {
-        let mut h1 = DefaultHasher::new();
-        a.hash(&mut h1);
-        let mut h2 = DefaultHasher::new();
-        b.hash(&mut h2);
-        // rebuild b through operations so that its SmallVec has another push/pop history
-        let b2 = b.union(&Range::empty()).intersection(&Range::full());
-        let mut h3 = DefaultHasher::new();
-        b2.hash(&mut h3);
-        if h1.finish() != h2.finish() || (b2 == a && h1.finish() != h3.finish()) {
+        if hash_of(&a) != hash_of(&b) {
             set("equal ranges hash differently".into());
+        }
+    }
+    // representation independence: the same set reached through other operations (another SmallVec
+    // history / capacity / variant) must be ==, compare Equal and hash alike
+    for (r, segs) in [(&a, &sa), (&b, &sb)] {
+        for (how, alt) in alt_builds(r, segs) {
+            if &alt != r || alt.cmp(r) != Ordering::Equal || r.cmp(&alt) != Ordering::Equal {
+                set(format!("{} is not == / Equal to the range itself", how));
+            } else if hash_of(&alt) != hash_of(r) {
+                set(format!("equal ranges hash differently ({})", how));
+            }
         }
     }
     // ---- tags
